@@ -18,6 +18,11 @@ import AsyncsshModel.Base.Hex
   The environment (asyncio socket transport, SSH channel, the `_forward` task) produces the events; the
   relay answers with calls on the two transports, which are the outputs.
 
+  Two more places where a relayed socket exists while the SSH side of its relay does not: the open ending with
+  an exception other than `ChannelOpenError` (`crashStep`) and the destination side of a forwarded connection
+  whose SSH connection is lost while the destination is being connected (`destOpen`), each with the behaviour
+  before its repair as `...PreFix`.
+
   `Variant.asIs` is the code as it stands.  A `Variant` says which of the two small repairs proposed in the
   C20 report are present (close both halves once EOF has been seen in both directions; close the freshly opened
   channel when the socket was lost while the channel was being opened); the theorems say which statements need
@@ -174,6 +179,47 @@ def step (v : Variant) (r : Relay) : Ev → Relay × List Out
 /-- a connection has just been accepted on a forwarding listener -/
 def initListener : Relay := { s := { tr := true }, c := {}, phase := .opening }
 
+/-! ### the open ends with an exception that is not `ChannelOpenError`
+
+  `await self._coro(session_factory, *args)` in `_forward` (forward.py) can also raise something else: a
+  `PacketDecodeError` from `packet.check_end()` on the peer's OPEN_CONFIRMATION (channel.py `_open_forward`), an
+  exception of the application's `accept_handler` (connection.py `tunnel_connection`).  Since the repair
+  (`except Exception: self.close(); raise`) the socket-side half is closed exactly as for `ChannelOpenError`
+  before the exception travels on to the task (which ends the SSH connection): `crashStep true = step v · .fail`
+  (theorem `crash_is_fail`), so that `Ev.fail` covers every failed outcome of the open.  Before the repair nothing
+  was closed: the task just died. -/
+def crashStep (fix : Bool) (r : Relay) : Relay × List Out :=
+  if r.phase != .opening then (r, []) else
+  if fix then closeFwd { r with phase := .failed } .sock
+  else ({ r with phase := .failed }, [])
+
+/-- the code before the repair -/
+def crashStepPreFix : Relay → Relay × List Out := crashStep false
+
+/-! ### the destination side of a forwarded connection
+
+  connection.py `forward_connection` / `forward_unix_connection` (session factory of direct-tcpip,
+  direct-streamlocal on the server and of forwarded-tcpip, forwarded-streamlocal on the client):
+      _, peer = await self._loop.create_connection(SSHForwarder, dest_host, dest_port)   # socket-side half
+      if self.is_closed(): peer.close(); raise ChannelOpenError(...)                     # the repair
+      return SSHForwarder(peer)                                                          # channel-side half
+  and channel.py `_finish_open_request`, resumed in the same task step: `if not self._conn: raise
+  ChannelOpenError` (the new session is dropped), else `session.connection_made(chan)`.  The environment
+  decides whether the SSH connection is still there when the connect completes (`connAlive`). -/
+def destOpen (fix : Bool) (connAlive : Bool) : Relay × List Out :=
+  let s1 : Fwd := { tr := true, peer := true }
+  if connAlive then ({ s := s1, c := { tr := true, peer := true }, phase := .linked }, [])
+  else if fix then
+    -- `peer.close()` on the socket-side half, which has no peer yet; the channel-side half is never made
+    ({ s := {}, c := {}, phase := .failed }, [.close .sock])
+  else
+    -- `SSHForwarder(peer)` links the two halves, `_finish_open_request` drops the new half without ever
+    -- giving it a transport: nothing refers to the pair any more except the socket's own transport
+    ({ s := s1, c := { peer := true }, phase := .failed }, [])
+
+/-- the code before the repair -/
+def destOpenPreFix : Bool → Relay × List Out := destOpen false
+
 def run (v : Variant) : Relay → List Ev → Relay × List Out
   | r, [] => (r, [])
   | r, e :: es =>
@@ -274,7 +320,34 @@ structure Checks where
   key : Bool
   cert : Bool
   permitopen : Bool
+  maxPort : Option Nat      -- `if <port> > N: <deny>` ahead of the credential checks: the largest port served
+  pathNul : Bool            -- `if '\0' in path and not path.startswith('\0'): <deny>` ahead of them
   deriving DecidableEq, Repr
+
+/-- request kinds that name a TCP address (the others name a UNIX domain socket path) -/
+def ReqKind.isTcp : ReqKind → Bool
+  | .directTcpip | .tcpipForward => true
+  | .directStreamlocal | .streamlocalForward => false
+
+/-- `'\0' in dest_path and not dest_path.startswith('\0')`: a path name (as opposed to the name of an abstract
+    socket, which begins with NUL and is used in full) with a NUL inside -/
+def nulInPathName (p : Bytes) : Bool := p.contains 0 && p.head? != some 0
+
+/-- the request names an address the socket layer can take literally (as far as the handler tests it) -/
+def wellFormed (ch : Checks) (d : Dest) : Bool :=
+  (match ch.maxPort with
+   | none => true
+   | some m => decide (d.port ≤ m)) && !(ch.pathNul && nulInPathName d.host)
+
+/-- What the socket layer makes of the address in the request.  Ports are 32-bit numbers on the wire
+    (`packet.get_uint32()`); `getaddrinfo` (glibc) reduces a numeric service below 2^31 modulo 2^16 (a larger
+    one it refuses: nothing is made, which is no concern here).  The kernel reads the path name of a UNIX domain
+    socket up to its first NUL (`connect`; abstract names are taken whole).  Compared with the socket layer of
+    the machine on every run (correspondence leg `sockdest`). -/
+def sockDest (kind : ReqKind) (d : Dest) : Dest :=
+  if kind.isTcp then { d with port := d.port % 65536 }
+  else if d.host.head? = some 0 then d
+  else { d with host := d.host.takeWhile (· != 0) }
 
 /-- `check_key_permission('port-forwarding')` as the source reads -/
 def keyPermits (l : Lookup) (k : KeyOpts) : Bool :=
@@ -309,8 +382,15 @@ inductive Verdict where
     (`connection_requested`, `server_requested`, `unix_connection_requested`, `unix_server_requested`) -/
 def decideReq (l : Lookup) (ch : Checks) (k : KeyOpts) (c : Option CertOpts) (d : Dest) (appSaysYes : Bool) :
     Verdict × Bool :=
-  if !permittedBy l ch k c d then (.prohibited, false)
+  if !wellFormed ch d then (.prohibited, false)
+  else if !permittedBy l ch k c d then (.prohibited, false)
   else if appSaysYes then (.created, true) else (.refusedByApp, true)
+
+/-- the handlers before the repair: no test of the port range, no test for NUL in a path name -/
+def checksPreFix (ch : Checks) : Checks := { ch with maxPort := none, pathNul := false }
+
+def decideReqPreFix (l : Lookup) (ch : Checks) : KeyOpts → Option CertOpts → Dest → Bool → Verdict × Bool :=
+  decideReq l (checksPreFix ch)
 
 /-! `permitopen="host:port"` value parsing (auth_keys.py `_add_permitopen`):
     `host, port_str = value.rsplit(':', 1)`; brackets around the host are dropped; `*` is the wildcard;
@@ -368,9 +448,28 @@ def parsePermitopen (v : Bytes) : Option (Bytes × PermitPort) :=
   `_cleanup` (1078-1079); asyncssh/listener.py `SSHForwardListener.close` (252-261).
 
   A listener is created by a task that awaits `getaddrinfo`/`create_server`; the connection can be cleaned up
-  while that task is in flight. -/
+  while that task is in flight.  `closeListener` of a listener whose table entry was overwritten (possible only
+  before the duplicate-path repair) is not modelled: it leaves the state unchanged. -/
 
-abbrev LKey := Bytes × Nat          -- (listen_host, listen_port) or (path, 0)
+/-- key of `_local_listeners`: the tuple `(listen_host, listen_port)` of a TCP listener or the string
+    `listen_path` of a UNIX one (never equal to each other in Python either) -/
+inductive LKey where
+  | tcp (host : Bytes) (port : Nat)
+  | unix (path : Bytes)
+  deriving DecidableEq, Repr
+
+def LKey.isUnix : LKey → Bool
+  | .tcp _ _ => false
+  | .unix _ => true
+
+/-- which repairs of the listener code the modelled tree contains -/
+structure LVariant where
+  fixRace : Bool    -- a listener whose creation completes after `_cleanup` is closed, not registered (F40)
+  fixDup : Bool     -- a UNIX path already in the table is refused before anything is created
+  deriving DecidableEq, Repr
+
+def LVariant.asIs : LVariant := ⟨false, false⟩
+def LVariant.fixed : LVariant := ⟨true, true⟩
 
 structure LState where
   table : List (LKey × Nat) := []     -- `_local_listeners`: key -> listener id
@@ -391,6 +490,8 @@ inductive LEv where
 
 def tableErase (t : List (LKey × Nat)) (k : LKey) : List (LKey × Nat) := t.filter (·.1 != k)
 
+def hasKey (t : List (LKey × Nat)) (k : LKey) : Bool := (t.find? (·.1 == k)).isSome
+
 /-- `SSHForwardListener.close`: `conn.close_forward_listener(key)` pops the key, the servers are closed -/
 def closeL (s : LState) (k : LKey) (id : Nat) : LState :=
   { s with table := tableErase s.table k, listening := s.listening.filter (· != id) }
@@ -399,18 +500,28 @@ def closeAll : List (LKey × Nat) → LState → LState
   | [], s => s
   | (k, id) :: r, s => closeAll r (closeL s k id)
 
-def lstep (fix : Bool) (s : LState) : LEv → LState
+def lstep (v : LVariant) (s : LState) : LEv → LState
   | .request k granted =>
-    if granted then { s with pending := s.pending ++ [(s.next, k)], next := s.next + 1 } else s
+    if !granted then s
+    else if v.fixDup && k.isUnix && hasKey s.table k then
+      -- repair (`forward_local_path`, `forward_local_path_to_port`): `if listen_path in self._local_listeners:
+      -- raise OSError(EADDRINUSE)`: the creation task fails at once, before anything is created
+      { s with next := s.next + 1 }
+    else { s with pending := s.pending ++ [(s.next, k)], next := s.next + 1 }
   | .created id =>
     match s.pending.find? (·.1 == id) with
     | none => s
     | some (_, k) =>
       let s1 := { s with pending := s.pending.filter (·.1 != id) }
-      if (s.table.find? (·.1 == k)).isSome then s1  -- the address is still bound by a listener of this
+      if hasKey s.table k && !k.isUnix then s1      -- the TCP address is still bound by a listener of this
                                                     -- connection: `bind` fails (kernel), OSError path
-      else if fix && s.cleaned then s1              -- repair: the connection is gone, close the new socket
-      else { s1 with table := (k, id) :: s1.table, listening := id :: s1.listening }
+      else if v.fixRace && s.cleaned then s1        -- repair: the connection is gone, close the new socket
+      else
+        -- `self._local_listeners[key] = listener`.  For a UNIX path still in the table this is reached too:
+        -- asyncio's `create_unix_server` removes an existing socket file before it binds, so the second bind
+        -- succeeds; the assignment overwrites the entry of the first listener, which keeps listening but is no
+        -- longer known to the connection
+        { s1 with table := (k, id) :: tableErase s1.table k, listening := id :: s1.listening }
   | .createFailed id => { s with pending := s.pending.filter (·.1 != id) }
   | .cancel k =>
     match s.table.find? (·.1 == k) with
@@ -422,8 +533,22 @@ def lstep (fix : Bool) (s : LState) : LEv → LState
     | some (k, _) => closeL s k id
   | .cleanup => { closeAll s.table s with cleaned := true }
 
-def lrun (fix : Bool) : LState → List LEv → LState
+def lrun (v : LVariant) : LState → List LEv → LState
   | s, [] => s
-  | s, e :: es => lrun fix (lstep fix s e) es
+  | s, e :: es => lrun v (lstep v s e) es
+
+/-- What the theorems about the table assume of a history.  Two creations for the same UNIX path are never in
+    flight at once on one connection (the server works through global requests one at a time, connection.py
+    `_service_next_global_request`; an application that calls `forward_local_path` twice concurrently for one path is
+    outside the model).  For the code before the repair in addition: no request names a UNIX path that is already
+    being forwarded (the repaired code refuses that request itself). -/
+def llegal (v : LVariant) (s : LState) : LEv → Bool
+  | .request k true =>
+    !k.isUnix || (!(s.pending.any (·.2 == k)) && (v.fixDup || !hasKey s.table k))
+  | _ => true
+
+def llegalRun (v : LVariant) : LState → List LEv → Bool
+  | _, [] => true
+  | s, e :: es => llegal v s e && llegalRun v (lstep v s e) es
 
 end AsyncsshModel.Forward
